@@ -5,7 +5,7 @@ import sys
 import time
 
 from . import core, engine, roles as roles_mod
-from . import search
+from . import search, nfa
 
 TRUSTED = [
     "L1: for a power of two B, x < kB and c < B imply x ^ c < kB; next_power_of_two(n) >= n",
@@ -51,7 +51,16 @@ def run_C07(ctx, R):
     search.rule_safe_field(ctx, R)
 
 
+def run_NFA(ctx, R):
+    NR = nfa.NfaRoles(ctx, R)
+    nfa.rule_outputs_pass(ctx, R, NR)
+    nfa.rule_fail_passes(ctx, R, NR)
+    nfa.rule_add(ctx, R, NR)
+    nfa.rule_num_bytes(ctx, R, NR)
+
+
 PROPS = {
+    "NFA": (run_NFA, False, "dev: all nfa rules"),
     "C01": (run_C01, False, "ITER(overlapping) TRANS: structural necessary conditions of overlapping search"),
     "C02": (run_C02, False, "ITER(find) TRANS"),
     "C03": (run_C03, False, "ITER-LM TRANS(leftmost)"),
